@@ -23,6 +23,25 @@ US_DAY = 86400 * 10 ** 6
 _TD_US = z3.Function("td_round_us", z3.RealSort(), z3.IntSort())
 
 
+def _as_int_term(t):
+    """Int term equal to the real term t when t is syntactically integer valued, else None."""
+    if z3.is_int_value(t):
+        return t
+    if z3.is_rational_value(t):
+        return z3.IntVal(t.numerator_as_long()) if t.denominator_as_long() == 1 else None
+    if z3.is_app_of(t, z3.Z3_OP_TO_REAL):
+        return t.arg(0)
+    if z3.is_app_of(t, z3.Z3_OP_MUL) or z3.is_app_of(t, z3.Z3_OP_ADD):
+        parts = [_as_int_term(c) for c in t.children()]
+        if any(p is None for p in parts):
+            return None
+        r = parts[0]
+        for p in parts[1:]:
+            r = r * p if z3.is_app_of(t, z3.Z3_OP_MUL) else r + p
+        return r
+    return None
+
+
 def _iv(v):
     return v if isinstance(v, (int, SInt)) and not isinstance(v, bool) else (int(v) if isinstance(v, bool) else v)
 
@@ -315,6 +334,8 @@ def dt_attr(it, obj, name):
             return getattr(obj, fieldmap[name])
         if name == "tzinfo":
             return None
+        if name == "date":
+            return lambda: Opaque("date")
         d = getattr(dt, name, None)
         if d is None:
             it.py_raise(AttributeError, f"'datetime.datetime' object has no attribute '{name}'")
@@ -508,6 +529,15 @@ def m_td(it, args, kw):
             prod = m_num.float_binop(it, ast.Mult(), v, 1e6) if False else None
             if it.float_mode != "real":
                 raise Unsupported("timedelta(seconds=float) in fp mode")
+            # exact short-cut: the float is the rounding of a real x with x * 10^6 an integer
+            # (e.g. int / 10): for |x| < 2^30 s the rounding errors stay below half a
+            # microsecond, so the result is exactly that integer
+            ex_t = getattr(v, "exact", None)
+            if ex_t is not None:
+                it_ = _as_int_term(z3.simplify(ex_t * 10 ** 6))
+                if it_ is not None and it.decide(z3.And(ex_t > -(2 ** 30), ex_t < 2 ** 30)):
+                    total = total + it_
+                    continue
             vt = m_num.f_term(it, v)
             r = vt * 10 ** 6
             fl = z3.ToInt(r)
